@@ -187,6 +187,31 @@ class Body:
                     changed = True
         return dom
 
+    def reach_avoiding(self, starts, avoid, unwind=False):
+        """blocks reachable from `starts` (list) along paths that never enter a block in `avoid`"""
+        seen = set()
+        work = [s for s in starts if s not in avoid]
+        while work:
+            b = work.pop()
+            if b in seen:
+                continue
+            seen.add(b)
+            for s in self.succs(b, unwind):
+                if s not in avoid and s not in seen:
+                    work.append(s)
+        return seen
+
+    def call_blocks(self, pred):
+        """blocks whose terminator is a call satisfying pred(callee_path, term)"""
+        res = []
+        for i, t in self.terminators():
+            if t["k"] == "call":
+                ci = callee_of(t)
+                p = callee_path(ci) if ci else None
+                if pred(p or "", t):
+                    res.append(i)
+        return res
+
     def back_edges(self, unwind=False):
         dom = self.dominators(unwind)
         res = []
@@ -453,6 +478,24 @@ class Crate:
             raise LookupError("expected exactly one body matching %r in %s, found %d: %s" % (
                 suffix, self.package, len(r), [b.path for b in r][:5]))
         return r[0]
+
+    def trait_impl_fn(self, trait_suffix, self_suffix, arg_suffix=None, name=None):
+        """the method body of `impl Trait<Arg> for Self` (matched on resolved types, not on path text)"""
+        res = []
+        for b in self.all_bodies:
+            if b.kind == "closure" or not b.impl_trait or not b.impl_trait.endswith(trait_suffix):
+                continue
+            if b.impl_self is None or not ty_str(b.impl_self).endswith(self_suffix):
+                continue
+            ta = b.raw.get("impl_trait_args") or []
+            if arg_suffix is not None and not (ta and ty_str(ta[-1]).endswith(arg_suffix)):
+                continue
+            if name is not None and not b.short.endswith("::" + name):
+                continue
+            res.append(b)
+        if len(res) != 1:
+            raise LookupError("expected one impl %s<%s> for %s, found %d" % (trait_suffix, arg_suffix, self_suffix, len(res)))
+        return res[0]
 
     def closures_of(self, body, recursive=False):
         res = list(self._children.get(body.path, []))
